@@ -14,6 +14,7 @@ import (
 	"path/filepath"
 	"sort"
 	"strings"
+	"time"
 )
 
 func fatal(err error) {
@@ -135,6 +136,10 @@ func main() {
 			w.WriteByte('\n')
 		}
 		w.Flush()
+	case "augment":
+		runAugment(readFrontCases(*inputs), *outDir)
+	case "front":
+		runFront(readFrontCases(*inputs), *outDir)
 	case "comments":
 		// file names on stdin -> (case ID generated (groups ...) (doc ...)) lines
 		sc := bufio.NewScanner(os.Stdin)
@@ -193,8 +198,22 @@ func runEngine(cases []Case, outDir string) {
 	of, _ := os.Create(filepath.Join(outDir, "engine.orig"))
 	cw, rw, jw, ow := bufio.NewWriter(cf), bufio.NewWriter(rf), bufio.NewWriter(jf), bufio.NewWriter(of)
 	stats := map[string]int{}
+	hangs := 0
 	for _, c := range cases {
-		out := runEngineCase(c)
+		var out engineOut
+		if hangs >= 2 {
+			out.skip = "not-run: earlier cases did not terminate"
+		} else {
+			done := make(chan engineOut, 1)
+			go func(c Case) { done <- runEngineCase(c) }(c)
+			select {
+			case out = <-done:
+			case <-time.After(10 * time.Second):
+				hangs++
+				stats["hang"]++
+				out.skip = "hang: the case did not terminate within 10 s"
+			}
+		}
 		if out.skip != "" {
 			stats["skipped"]++
 			stats["skip:"+strings.SplitN(out.skip, ":", 2)[0]]++
